@@ -464,11 +464,26 @@ pub fn eval_unit_name(
                 let (right_unit, right) = eval_unit_name(ctx, &binop.right)?;
 
                 if left_unit != right_unit {
-                    return Err(QueryError::generic(
-                        "Add of values with differing \
+                    // Different names, `m + cm`: the sum has no name
+                    // of its own, so show it in base units (if it is a
+                    // sum at all, which evaluating it tells).
+                    return match eval_expr(ctx, expr)? {
+                        Value::Number(sum) => Ok((
+                            sum.unit
+                                .iter()
+                                .map(|(unit, &power)| {
+                                    let name = unit.to_string();
+                                    (ctx.canonicalize(&name).unwrap_or(name), power as isize)
+                                })
+                                .collect(),
+                            sum.value,
+                        )),
+                        _ => Err(QueryError::generic(
+                            "Add of values with differing \
                                  dimensions is not meaningful"
-                            .to_string(),
-                    ));
+                                .to_string(),
+                        )),
+                    };
                 }
                 // Both sides are multiples of the same unit, so the
                 // constant factor of the sum is the sum of the factors.
